@@ -559,7 +559,235 @@ def c08_conditions(fn):
     return out
 
 
+def rule_variational_kernel(ctx):
+    """R16.9: first-order variational force kernels. In reb_calculate_acceleration_var every innermost pair loop that updates
+    the accelerations of one variational array V from the real particles P is summarised symbolically (E8); the increment
+    to V[a].a{x,y,z} must be the directional derivative of the Newtonian pair acceleration of P[a] due to P[b],
+        F = -G m_b (x_a - x_b)/|x_a - x_b|^3,
+    in the direction (dx_a, dx_b, dm_b) = (V[a].xyz, V[b].xyz, V[b].m). Blocks that read two variational arrays (second
+    order) are left to the not-decided list."""
+    import sympy as sp
+    from . import symexec, e8
+    tu = cfront.load_tu('gravity.c')
+    fn = tu.func('reb_calculate_acceleration_var')
+    n = 0
+    samples = []
+
+    def innermost_loops(node):
+        for l in walk(node):
+            if l.get('kind') == 'ForStmt' and not any(x is not l and x.get('kind') == 'ForStmt' for x in walk(l['inner'][-1])):
+                yield l
+
+    def flatten(items):
+        out = []
+        for st in items:
+            if st.get('kind') == 'IfStmt' and strip(st['inner'][0], casts=True).get('kind') == 'DeclRefExpr' and len(st['inner']) == 2:
+                b = st['inner'][1]
+                out += flatten(b.get('inner', []) if b.get('kind') == 'CompoundStmt' else [b])
+            else:
+                out.append(st)
+        return out
+    for loop in innermost_loops(cfront.body(fn)):
+        body = loop['inner'][-1]
+        items = flatten(body.get('inner', []) if body.get('kind') == 'CompoundStmt' else [body])
+        ups = []
+        for st in items:
+            e = strip(st)
+            if is_assign(e) and e['opcode'] in ('+=', '-=') and strip(e['inner'][0]).get('kind') == 'MemberExpr' and strip(e['inner'][0])['name'] in ('ax', 'ay', 'az'):
+                ups.append(e)
+        if not ups:
+            continue
+        arrays = set()
+        for st in items:
+            for x in walk(st):
+                if x.get('kind') == 'ArraySubscriptExpr':
+                    arrays.add(render(strip(x['inner'][0], casts=True)))
+        targets = {render(strip(strip(strip(e['inner'][0])['inner'][0])['inner'][0], casts=True)) for e in ups}
+        if len(targets) != 1:
+            continue
+        V = targets.pop()
+        others = arrays - {V}
+        if len(others) != 1:
+            continue            # second-order blocks read two variational arrays
+        P = others.pop()
+        state = symexec.State()
+        try:
+            symexec.run_block(items, state, ())
+        except AnalysisError:
+            continue
+        where = 'src/gravity.c:%s reb_calculate_acceleration_var' % line_of(loop)
+        idxs = sorted({render(strip(strip(e['inner'][0])['inner'][0])['inner'][1]) for e in ups})
+        # the two particles of the pair: subscripts with which P is read
+        pidx = []
+        for st in items:
+            for x in walk(st):
+                if x.get('kind') == 'ArraySubscriptExpr' and render(strip(x['inner'][0], casts=True)) == P:
+                    k_ = render(x['inner'][1])
+                    if k_ not in pidx:
+                        pidx.append(k_)
+        if len(pidx) != 2:
+            continue
+        G = None
+        for cand in ('G', 'r.G'):
+            if cand in state.syms or cand in state.vals:
+                G = state.get(cand)
+        if G is None:
+            G = state.sym('G')
+
+        def S(arr, k_, m):
+            return state.sym('%s[%s].%s' % (arr, k_, m))
+        for a in idxs:
+            if a not in pidx:
+                continue        # the test-particle kernel addresses V with a fixed slot; not covered here
+            b = [k_ for k_ in pidx if k_ != a][0]
+            xa = [S(P, a, c) for c in 'xyz']
+            xb = [S(P, b, c) for c in 'xyz']
+            r2 = sum((u - v) ** 2 for u, v in zip(xa, xb))
+            mb = S(P, b, 'm')
+            for ci, c in enumerate('xyz'):
+                F = -G * mb * (xa[ci] - xb[ci]) / r2 ** sp.Rational(3, 2)
+                dF = sum(sp.diff(F, q) * dq for q, dq in list(zip(xa, [S(V, a, c_) for c_ in 'xyz'])) + list(zip(xb, [S(V, b, c_) for c_ in 'xyz'])) + [(mb, S(V, b, 'm'))])
+                path = '%s[%s].a%s' % (V, a, c)
+                if path not in state.vals:
+                    continue
+                inc = state.vals[path] - state.sym(path)
+                n += 1
+                resid = inc - dF
+                try:
+                    worst = e8.zero_test(resid, n=3, seed=ci)
+                except Exception as ex:      # noqa
+                    raise AnalysisError('R16.9: residual of %s at %s cannot be evaluated (%s)' % (path, where, ex))
+                if worst > 1e-25:
+                    # name the symbol that is wrong: which direction component has a non-zero coefficient in the residual
+                    culprit = [str(q) for q in sorted(resid.free_symbols, key=str) if str(q).startswith(V.replace('.', '_')) and e8.zero_test(sp.diff(resid, q), n=2, seed=1) > 1e-25]
+                    ctx.report('R16.9', 'var-kernel:%s:%s' % (line_of(loop), path), where,
+                               'the increment of %s is not the derivative of the pair acceleration of %s[%s] due to %s[%s] in the direction of the variational particles (residual %.1e; terms in %s are off)'
+                               % (path, P, a, P, b, float(worst), ', '.join(culprit) or '?'))
+        samples.append('%s: pair (%s) on %s -> %s' % (where, ','.join(pidx), P, V))
+    ctx.covered('R16.9', 'first-order variational pair kernels: increment == directional derivative of the Newtonian pair acceleration (symbolic summary, 40-digit zero test)', n, floor=9, samples=samples)
+
+
+DEAD_PARAMS_OK = {
+    # (file, class, function, parameter): reason
+    ('horizons.py', None, 'query_horizons_for_particle'): 'keyword sink: the element arguments are accepted so that add(**kwargs) can be forwarded unchanged, Horizons supplies the state',
+    ('particle.py', 'Particle', '__init__', 'date'): 'consumed through locals() by the Horizons branch',
+    ('particles.py', 'Particles', '__delitem__', 'key'): 'MutableMapping stub',
+    ('simulation.py', 'Simulation', '__init__', 'filename'): 'consumed by __new__',
+    ('simulation.py', 'Simulation', '__init__', 'snapshot'): 'consumed by __new__',
+    ('simulation.py', 'Simulation', 'from_simulationarchive', 'simulationarchive'): 'deprecated entry point that only raises',
+    ('simulation.py', 'Simulation', 'stop_server', 'port'): 'the C side keeps one server per simulation',
+    ('simulationarchive.py', 'Simulationarchive', '__setitem__', 'key'): 'read-only container stub',
+    ('simulationarchive.py', 'Simulationarchive', '__setitem__', 'value'): 'read-only container stub',
+    ('simulationarchive.py', 'Simulationarchive', '__delitem__', 'key'): 'read-only container stub',
+}
+
+
+def _first_access(stmts, name):
+    """possible first accesses of `name` along the paths through a statement list: subset of {'R', 'W', 'N'}
+    (read, overwritten without being read, not touched)"""
+    import ast
+
+    def expr_reads(e):
+        return e is not None and any(isinstance(x, ast.Name) and x.id == name and isinstance(x.ctx, ast.Load) for x in ast.walk(e))
+
+    def one(st):
+        if isinstance(st, ast.Assign):
+            if expr_reads(st.value):
+                return {'R'}
+            for t in st.targets:
+                if isinstance(t, ast.Name) and t.id == name:
+                    return {'W'}
+                if expr_reads(t):
+                    return {'R'}
+            return {'N'}
+        if isinstance(st, ast.AugAssign):
+            return {'R'} if (expr_reads(st.value) or (isinstance(st.target, ast.Name) and st.target.id == name) or expr_reads(st.target)) else {'N'}
+        if isinstance(st, ast.If):
+            if expr_reads(st.test):
+                return {'R'}
+            return seq(st.body) | seq(st.orelse)
+        if isinstance(st, (ast.For, ast.While)):
+            if expr_reads(getattr(st, 'iter', None)) or expr_reads(getattr(st, 'test', None)):
+                return {'R'}
+            inner = seq(st.body)
+            return inner | {'N'} if 'W' not in inner or True else inner
+        if isinstance(st, ast.Try):
+            b = seq(st.body)
+            # an exception may leave the body at any point: handlers see the parameter possibly untouched
+            h = set()
+            for hd in st.handlers:
+                h |= seq(hd.body)
+            out = set(b)
+            if h - {'N'}:
+                out |= {x for x in h if x != 'N'}
+            return out | seq(st.finalbody) - {'N'} if st.finalbody else out
+        if isinstance(st, ast.With):
+            if any(expr_reads(i.context_expr) for i in st.items):
+                return {'R'}
+            return seq(st.body)
+        if isinstance(st, (ast.FunctionDef, ast.ClassDef, ast.Lambda)):
+            return {'R'} if any(isinstance(x, ast.Name) and x.id == name for x in ast.walk(st)) else {'N'}
+        return {'R'} if any(isinstance(x, ast.Name) and x.id == name for x in ast.walk(st)) else {'N'}
+
+    def seq(items):
+        out = set()
+        pending = True
+        for st in items:
+            r = one(st)
+            out |= r - {'N'}
+            if 'N' not in r:
+                pending = False
+                break
+            if isinstance(st, (ast.Return, ast.Raise)):
+                pending = False
+                out.add('N')
+                break
+        if pending:
+            out.add('N')
+        return out
+    res = seq(stmts)
+    return res
+
+
+def rule_python_parameters(ctx, rule='R16.10', only=None):
+    """R16.10 / R18.8: no parameter of a function in the Python layer is silently ignored: every named parameter is read in
+    the body (frozen exceptions above, one reason each). Variation.vary(..., primary=) initialises a variational particle
+    as the derivative with respect to an orbital element relative to that primary; dropping the argument on the way to the
+    Particle constructor silently differentiates relative to particle 0."""
+    import ast
+    db = pyfront.pydb()
+    n = 0
+    for path in sorted(db.files):
+        base = path.split('/')[-1]
+        if '/tests/' in path or (only and base not in only):
+            continue
+        tree = db.files[path]
+        scopes = [(None, tree)] + [(c.name, c) for c in ast.walk(tree) if isinstance(c, ast.ClassDef)]
+        for cname, scope in scopes:
+            for fn in scope.body:
+                if not isinstance(fn, ast.FunctionDef):
+                    continue
+                names = {x.id for x in ast.walk(fn) if isinstance(x, ast.Name)}
+                for a in fn.args.args + fn.args.kwonlyargs:
+                    if a.arg in ('self', 'cls'):
+                        continue
+                    n += 1
+                    if a.arg in names:
+                        # read somewhere - but is the incoming value overwritten on every path before the first read?
+                        if _first_access(fn.body, a.arg) == {'W'}:
+                            ctx.report(rule, '%s.%s:%s:overwritten' % (cname or base, fn.name, a.arg), 'rebound/%s:%d %s%s' % (base, fn.lineno, (cname + '.') if cname else '', fn.name),
+                                       'parameter %s is overwritten on every path before it is read (with a value that does not depend on it): what the caller passed is silently replaced' % a.arg)
+                        continue
+                    if (base, cname, fn.name, a.arg) in DEAD_PARAMS_OK or (base, cname, fn.name) in DEAD_PARAMS_OK:
+                        continue
+                    ctx.report(rule, '%s.%s:%s' % (cname or base, fn.name, a.arg), 'rebound/%s:%d %s%s' % (base, fn.lineno, (cname + '.') if cname else '', fn.name),
+                               'parameter %s is accepted but never read: the caller\'s choice is silently ignored' % a.arg)
+    ctx.covered(rule, 'parameters of the Python layer that are read in the body of their function (%d frozen exceptions)' % len(DEAD_PARAMS_OK), n, floor=4 if only else 300)
+
+
 def run(ctx):
+    rule_python_parameters(ctx, 'R16.10', only=('variation.py',))
+    rule_variational_kernel(ctx)
     from . import c15
     c15.rule_boundary_extent(ctx)          # R15.8: boundary conditions never touch variational particles
     rule_rescale_integrator_state(ctx)
@@ -571,4 +799,4 @@ def run(ctx):
     rule_constructors(ctx)
     ctx.assumptions.append('R16.1: domain 4 - ix^2 - iy^2 > 0 (fabs is the identity there); the Pal auxiliary (p,q) are the implicit functions defined by the two equations reb_tools_solve_kepler_pal iterates on; '
                            'element values the constructors read back from the particle enter as free symbols')
-    ctx.not_decided.append('evolution of variational particles against finite differences; MEGNO / Lyapunov limits; the WHFast tangent map (contains the universal-variable solve); variational force kernels')
+    ctx.not_decided.append('evolution of variational particles against finite differences; MEGNO / Lyapunov limits; the WHFast tangent map (contains the universal-variable solve); second-order and test-particle-slot variational force kernels')
